@@ -4,6 +4,8 @@ Correspondence: JSONPointer(s).resolve / exists / resolve_parent  vs  JP.Pointer
 Property on each input: implementation vs JP.Pointer.rfcEval (the executable RFC 6901 spec)."""
 from __future__ import annotations
 
+import copy
+
 from .. import core
 from .. import gen as G
 
@@ -269,11 +271,36 @@ def _primitives_tie(ctx):
             ctx.mismatch("prim.canon", {"text": t[:60]}, bool(canon.match(t)), m.get("canon"))
 
 
+def _parts_tie(ctx):
+    """`Pointer.resolveParts` / `Pointer.encode` on *arbitrary* parts - any mix of `int` and `str`, as `JSONPointer('', parts=...)`,
+    `from_match` and the patch builder may leave them - through their own driver operation (`ptr.resolve_parts`): every sequence of
+    length <= 2 over integer parts (in range, at the end, beyond, negative), digit strings, signs, `-`, `#`-prefixed and escaped names."""
+    from jsonpath import JSONPointer
+
+    alpha = [0, 1, 2, 5, -1, -2, -5, "0", "1", "2", "-1", "-2", "01", "+1", "a", "", "-", "~", "#a", "#0", "#1", "#", "a/b", "~0", "~1"]
+    docs = [{"a": [1, [2]], "0": 1, "-1": 2, "": 3, "#a": 1, "a/b": 5, "~": 6, "1": {"a": 1, "0": [0]}, "#": 7, "~0": 8},
+            [10, {"a": 1, "0": 2, "#": 3}, [3, 4]], [], {}, 5, None]
+    seqs = [(a,) for a in alpha] + [(a, b) for a in alpha for b in alpha]
+    reqs, meta = [], []
+    for d in docs:
+        for ps in seqs:
+            reqs.append({"op": "ptr.resolve_parts", "parts": list(ps), "doc": core.enc(d)}); meta.append((d, ps))
+    for (d, ps), m in zip(meta, ctx.driver.run(reqs, jobs=ctx.jobs)):
+        p = JSONPointer("", parts=tuple(ps))
+        iv = _canon_outcome(core.outcome(lambda: p.resolve(copy.deepcopy(d))))
+        ctx.case(("parts", repr(ps), repr(d)), nontrivial=True)
+        if iv != m["value"]:
+            ctx.mismatch("ptr.resolve_parts", {"parts": list(ps), "doc": d}, iv, m["value"])
+        if str(p) != m["str"]:
+            ctx.mismatch("ptr.encode", {"parts": list(ps)}, str(p), m["str"])
+
+
 def evaluate(ctx, cases):
     if not getattr(ctx, "_strdocs_done", False):
         ctx._strdocs_done = True
         _string_documents(ctx)
         _primitives_tie(ctx)
+        _parts_tie(ctx)
     reqs = []
     for c in cases:
         try:
